@@ -789,6 +789,67 @@ package badger
 //@   ensures[key-and-prefix] it.item != nil && it.opt.prefixIsKey ==> (result <==> bytes(it.item.key) == bytes(it.opt.Prefix) && hasPrefix(it.item.key, prefix))
 //@   assigns nothing
 
+// ---- what an item hands to the caller (C06) ----
+
+//@ func (*Item).Version
+//@   props C06
+//@   requires item != nil
+//@   ensures result == item.version
+//@   assigns nothing
+
+//@ func (*Item).UserMeta
+//@   props C06
+//@   requires item != nil
+//@   ensures result == item.userMeta
+//@   assigns nothing
+
+//@ func (*Item).ExpiresAt
+//@   props C06 C33
+//@   requires item != nil
+//@   ensures result == item.expiresAt
+//@   assigns nothing
+
+//@ func (*Item).Key
+//@   props C06
+//@   requires item != nil
+//@   ensures result == item.key
+//@   assigns nothing
+
+//@ func (*Item).DiscardEarlierVersions
+//@   props C06
+//@   requires item != nil
+//@   ensures result <==> item.meta&bitDiscardEarlierVersions != 0
+//@   assigns nothing
+
+//@ func (*Item).IsDeletedOrExpired
+//@   props C06 C33
+//@   requires item != nil
+//@   ensures result <==> gone(item.meta, item.expiresAt, now)
+//@   assigns ghost now
+
+// Value: the caller's function receives the prefetched value, or the bytes yieldItemValue
+// produced; a prefetch error or a read error is returned instead of calling it.
+//@ func (*Item).Value
+//@   props C06
+//@   light
+//@   assert[prefetched-value] before call fn#1 : arg0 == item.val && item.err == nil
+//@   assert[read-value] before call fn#2 : arg0 == ret0(yieldItemValue#1) && ret2(yieldItemValue#1) == nil
+//@   assert[prefetch-error-returned] before return#2 : result == item.err
+
+// ValueCopy: a copy of the prefetched value, or of the bytes yieldItemValue produced.
+//@ func (*Item).ValueCopy
+//@   props C06
+//@   light
+//@   assert[copy-of-prefetched] before call SafeCopy#1 : arg0 == dst && arg1 == item.val
+//@   assert[copy-of-read] before call SafeCopy#2 : arg0 == dst && arg1 == ret0(yieldItemValue#1)
+
+// prefetchValue keeps the error and a private copy of the bytes read.
+//@ func (*Item).prefetchValue
+//@   props C06
+//@   light
+//@   assert[copy-of-read] before call copy : arg1 == ret0(yieldItemValue#1) && len(arg0) == len(ret0(yieldItemValue#1))
+//@   assert[room-for-all] before call Resize : arg1 == len(ret0(yieldItemValue#1))
+
 // ---- streams (C25): one snapshot per run ----
 
 // Every producer goroutine of one Stream run must read the same snapshot. With a caller-given
